@@ -105,14 +105,15 @@ After that all one hundred and thirty-three are caught by the quick check of the
 
 ### 11.1 Changes that keep the properties: do the checks stay silent?
 
-`benign/` holds 24 changes that must *not* raise an alarm (`VERIF_REPO=/tmp/repo2 bin/benign <patch>` applies one to a scratch
+`benign/` holds 36 changes (and two probes of my own, `M01-n`, section 12) that must *not* raise an alarm (`VERIF_REPO=/tmp/repo2 bin/benign <patch>` applies one to a scratch
 copy of /repo and runs all twenty quick checks). `R0x-n` (12): refactorings by three sub-agents told the twenty properties
 and asked for substantial behaviour-preserving rewrites - all twenty checks silent on all twelve, re-run after every round of
-strengthening. `L0x-n` (12): changes by four sub-agents asked to *change* observable behaviour inside the freedom the
+strengthening. `L01`-`L04` (12): changes by four sub-agents asked to *change* observable behaviour inside the freedom the
 statements leave (tie-breaks among equally old nodes by name or by pod count, one retry of a failed taint write, re-reading
 a node before it is reaped, validating a removal batch before the first cloud call, continuing a Node-delete batch after a
 failure, one retry of an orphan-termination call, an immediate first readiness poll, rejecting an empty instance id without
-calling EC2): eleven silent; one false alarm of C19's direct oracle, corrected (section 12).
+calling EC2): eleven silent; one false alarm of C19's direct oracle, corrected (section 12). A second round of twelve
+(`L05`-`L08`, list in `benign/README.md`) after that correction: all silent.
 """ % "\n".join(re.sub(r"\| \| ", "| ", r.replace("|  |", "|")) for r in rows)
 p = os.path.join(root, "DESIGN.md")
 s = open(p).read()
